@@ -316,6 +316,20 @@ func checkUnknownFields(c UFCase, cv *cov) (v *evid.Violation) {
 				}
 			}
 		}
+		// ... nor may further conversions of the very same shape (same nesting, same field counts per level)
+		for rep := 0; rep < 2; rep++ {
+			again, err := uf.ConvertUnknownFields(append([]byte(nil), data...))
+			if err != nil || len(again) != len(fields) {
+				v = evid.Failf("conversion %d of the same input returned %d fields, err=%v", rep+2, len(again), err)
+				return
+			}
+			for i := range again {
+				if v = compareUF(&again[i], fields[i].ID, &fields[i].V, true, fmt.Sprintf("field[%d] of conversion %d of the same input", i, rep+2)); v != nil {
+					v.Msg += "; input " + hx(data)
+					return
+				}
+			}
+		}
 		for i := range tree {
 			if v = compareUF(&tree[i], fields[i].ID, &fields[i].V, true, fmt.Sprintf("field[%d] (re-checked after later conversions)", i)); v != nil {
 				v.Msg += "; input " + hx(data)
@@ -483,9 +497,32 @@ func genUFCase(t *rapid.T) UFCase {
 	var b []byte
 	for i := 0; i < n; i++ {
 		var v ref.Value
-		switch rapid.IntRange(0, 4).Draw(t, "shape") {
+		switch rapid.IntRange(0, 5).Draw(t, "shape") {
 		case 4: // nesting chains, also deeper than the skippers' limit of 64
 			v = genNest(t, rapid.SampledFrom([]int{1, 5, 30, 63, 64, 65, 66, 100, 200}).Draw(t, "depth"))
+		case 5: // a chain of structs in which every level has fields before (and sometimes after) the nested struct
+			d := rapid.IntRange(2, 24).Draw(t, "richDepth")
+			g := &vgen{t: t, nodes: 200, bytes: 2000, canonBool: true}
+			var mk func(level int) ref.Value
+			mk = func(level int) ref.Value {
+				sv := ref.Value{T: ref.STRUCT}
+				lead := rapid.IntRange(1, 3).Draw(t, "lead")
+				for j := 0; j < lead; j++ {
+					sv.Fields = append(sv.Fields, ref.Field{ID: int16(j + 1), V: g.value(rapid.SampledFrom([]int8{ref.I32, ref.STRING, ref.I64, ref.BOOL}).Draw(t, "leadT"), 0)})
+				}
+				if level < d {
+					child := mk(level + 1)
+					if rapid.IntRange(0, 3).Draw(t, "viaList") == 0 {
+						child = ref.Value{T: ref.LIST, ET: ref.STRUCT, Elems: []ref.Value{child}}
+					}
+					sv.Fields = append(sv.Fields, ref.Field{ID: 10, V: child})
+				}
+				if rapid.Bool().Draw(t, "trail") {
+					sv.Fields = append(sv.Fields, ref.Field{ID: 20, V: ref.Value{T: ref.I16, Bits: uint64(level)}})
+				}
+				return sv
+			}
+			v = mk(1)
 		case 0: // a struct with several fields of mixed kinds
 			v = ref.Value{T: ref.STRUCT}
 			g := &vgen{t: t, nodes: 60, bytes: 3000, canonBool: true}
